@@ -36,6 +36,15 @@ arepr = Repr()
 arepr.maxstring = 24
 
 
+def _json_key(key: Any) -> Optional[str]:
+    """The text under which json stores a dict key, None if json rejects it"""
+    if isinstance(key, str):
+        return key
+    if key is None or isinstance(key, (bool, int, float)):
+        return json.dumps(key)
+    return None
+
+
 def dict_get_state(obj: Any, save_context: SaveContext) -> dict[str, Any]:
     res = {
         "__class__": obj.__class__.__name__,
@@ -45,12 +54,23 @@ def dict_get_state(obj: Any, save_context: SaveContext) -> dict[str, Any]:
 
     key_types = get_state([type(key) for key in obj.keys()], save_context)
     content = {}
+    json_keys: dict[str, Any] = {}
     for key, value in obj.items():
         if isinstance(value, property):
             continue
         if np.isscalar(key) and hasattr(key, "item"):
             # convert numpy value to python object
             key = key.item()  # type: ignore
+        # json turns every key into a str, two keys with the same text (e.g. 1
+        # and "1") would silently collapse into one entry
+        json_key = _json_key(key)
+        if json_key is not None:
+            if json_key in json_keys:
+                raise ValueError(
+                    f"Cannot persist a dict with the keys {json_keys[json_key]!r} and "
+                    f"{key!r}, both are stored as the JSON key {json_key!r}"
+                )
+            json_keys[json_key] = key
         content[key] = get_state(value, save_context)
     res["content"] = content
     res["key_types"] = key_types
